@@ -98,7 +98,7 @@ func cmpOrientation(fn *ssa.Function) (field string, asc bool, ok bool) {
 		return "", false, false
 	}
 	callee := c.Common().StaticCallee()
-	if callee == nil || callee.Name() != "Compare" && (callee.Origin() == nil || callee.Origin().Name() != "Compare") {
+	if callee == nil || cname(callee) != "Compare" && (callee.Origin() == nil || callee.Origin().Name() != "Compare") {
 		return "", false, false
 	}
 	pk := callee.Pkg
@@ -312,7 +312,7 @@ func ruleGroupEntries(r *Run) {
 		for b := range l.Blocks {
 			for _, in := range b.Instrs {
 				if c, ok := in.(*ssa.Call); ok {
-					if callee := c.Common().StaticCallee(); callee != nil && callee.Origin() != nil && callee.Origin().Name() == "SortFunc" || callee != nil && callee.Name() == "SortFunc" {
+					if callee := c.Common().StaticCallee(); callee != nil && callee.Origin() != nil && callee.Origin().Name() == "SortFunc" || callee != nil && cname(callee) == "SortFunc" {
 						sortLoop, sortCall = l, c
 					}
 				}
@@ -328,7 +328,7 @@ func ruleGroupEntries(r *Run) {
 		nSucc++
 		res := stripConv(ret.Results[0])
 		vc, ok := res.(*ssa.Call)
-		if !ok || vc.Common().StaticCallee() == nil || !(vc.Common().StaticCallee().Name() == "Values" || vc.Common().StaticCallee().Origin() != nil && vc.Common().StaticCallee().Origin().Name() == "Values") || vc.Call.Args[0] != mu.Map {
+		if !ok || vc.Common().StaticCallee() == nil || cname(vc.Common().StaticCallee()) != "Values" || vc.Call.Args[0] != mu.Map {
 			sgood = false
 			os.Fail(r.pos(ret.Pos()), "success return yields %s, not the values of the stream map", describe(res, 0))
 			continue
